@@ -83,6 +83,11 @@ func (vs *varStore) predefVarIndex(v *reflect.Value, typ reflect.Type, pkg, name
 	if index, ok := vs.predefVarRef[currFn][v]; ok {
 		return index
 	}
+	for fn, refs := range vs.predefVarRef {
+		if index, ok := refs[v]; ok && fn.Parent == nil {
+			return index
+		}
+	}
 	index := int16(len(vs.globals))
 	g := newGlobal(pkg, name, typ, reflect.Value{})
 	if v.IsValid() {
